@@ -78,6 +78,12 @@ func (e Event) Class() string {
 		return fmt.Sprintf("chan(%s,%#x,%s)", e.C, e.N, strings.Join(e.Peers, "+"))
 	case "adv":
 		return fmt.Sprintf("adv(%s)", e.Rule)
+	case "close-server":
+		if e.Fail == "closeerr" {
+			return "close-server(relay-socket-closes-fail)"
+		}
+
+		return "close-server"
 	case "fail-relay", "close-control":
 		return fmt.Sprintf("%s(%s)", e.K, e.C)
 	case "connect", "peerdial":
@@ -759,12 +765,43 @@ func (x *Exec) applyTeardown(ev Event, now time.Time) (*Viol, bool) {
 			_ = w.SrvSock.Close()
 			x.settle()
 		}
+		var failing []*simnet.UDPSock
+		if ev.Fail == "closeerr" {
+			// every UDP relay socket refuses to be closed once: the server still gives up each of its allocations
+			// (it tries to close every one of them, whatever order it visits them in)
+			names := make([]string, 0, len(m.Allocs))
+			for name := range m.Allocs {
+				names = append(names, name)
+			}
+			sort.Strings(names)
+			for _, name := range names {
+				if a := m.Allocs[name]; !a.TCP && a.Relay != nil {
+					if s := w.Net.UDPAt(a.Relay.String()); s != nil {
+						s.CloseErr = errors.New("vtx: injected close error")
+						failing = append(failing, s)
+					}
+				}
+			}
+		}
 		_ = w.Srv.Close()
+		x.settle()
+		var untried []string
+		for _, s := range failing {
+			if s.CloseErr != nil {
+				untried = append(untried, s.LocalAddr().String())
+			}
+			// what the library could not close is released by the harness
+			s.CloseErr = nil
+			_ = s.Close()
+		}
 		x.settle()
 		x.ServerClosed = true
 		m.Closed = true
 		for name := range m.Allocs {
 			m.Drop(name)
+		}
+		if len(untried) > 0 {
+			return x.viol("resources", "relay-socket-never-closed-by-server-close", ev, fmt.Sprint(untried, x.Trace)), true
 		}
 
 		return nil, true
